@@ -83,6 +83,8 @@ def args(obs: Obs, ref: RefResult, nodes: Optional[Set[str]] = None) -> Optional
     """Every body invocation got exactly the declared kwargs with the reference values."""
     rc = obs.rc
     spec = rc.spec
+    if rc.reused:
+        return "node_instance_reused:%s" % rc.reused[0]
     if rc.bad:
         where, tname = rc.bad[0]
         return "bad_arg_type:%s.%s:%s" % (where[0], where[1], tname)
